@@ -70,6 +70,7 @@ type VC struct {
 	replayFn    *FuncInfo
 	replayLemma *Lemma
 	globalsDone map[types.Object]bool
+	noSafety    bool // safety obligations (nil, idx, slice, div, panic, ovf, conv, ...) are assumed instead of proved
 	ndecl       int  // number of declared constants (to detect impure closure evaluation)
 	inlineDefs  bool // define() returns the term itself (closure-as-predicate evaluation)
 }
@@ -183,8 +184,19 @@ func (s *State) heap(name, sort string) string {
 
 func (vc *VC) initHeap(name, sort string, epoch int) string {
 	n := fmt.Sprintf("%s!h%d_%d", sanitizeSym(name), vc.id, epoch)
-	vc.eng.syms.add(n, fmt.Sprintf("(declare-fun %s () %s)", n, sort))
+	if _, ok := vc.eng.syms.syms[n]; !ok {
+		vc.eng.syms.add(n, fmt.Sprintf("(declare-fun %s () %s)", n, sort)+nilMapAxiom(name, n, sort))
+	}
 	return n
+}
+
+// nilMapAxiom: the nil map (reference 0) has no keys.
+func nilMapAxiom(name, sym, sort string) string {
+	if !strings.HasPrefix(name, "D:") || !strings.HasPrefix(sort, "(Array Int (Array ") || !strings.HasSuffix(sort, " Bool))") {
+		return ""
+	}
+	ks := strings.TrimSuffix(strings.TrimPrefix(sort, "(Array Int (Array "), " Bool))")
+	return fmt.Sprintf("\n(assert (forall ((k %s)) (! (not (select (select %s 0) k)) :pattern ((select (select %s 0) k)))))", ks, sym, sym)
 }
 
 func (s *State) setHeap(name, sort, term string) {
@@ -208,6 +220,10 @@ func (s *State) havocAll() {
 
 func (s *State) havocHeap(name, sort string) {
 	s.heaps[name] = s.vc.declare(sanitizeSym(name)+"_hv", sort)
+	if ax := nilMapAxiom(name, s.heaps[name], sort); ax != "" {
+		sy := s.vc.eng.syms.syms[s.heaps[name]]
+		sy.Text += ax
+	}
 	s.vc.heapSort[name] = sort
 }
 
@@ -332,6 +348,14 @@ func (vc *VC) mergeVals(gs []string, vs []*Val) *Val {
 func (vc *VC) oblige(s *State, kind, goal string, pos token.Pos, desc string) *Obligation {
 	if goal == "true" {
 		return nil
+	}
+	if vc.noSafety {
+		switch baseKind(kind) {
+		case "nil", "idx", "slice", "div", "panic", "ovf", "conv", "assert-type", "nilmap", "make", "hashkey", "pre":
+			vc.eng.assumptions["panic-freedom, overflow and callee-precondition obligations of "+vc.fn+" are assumed, not claimed (contract says nosafety)"] = true
+			s.assume(goal)
+			return nil
+		}
 	}
 	vc.counters[kind]++
 	o := &Obligation{
